@@ -137,7 +137,7 @@ def c14(run, replay=None):
         root = os.path.join(C.SANDBOX, "x%d" % si)
         for idx, c in parts[si]:
             chdir = os.path.join(root, c["chdir"]) if c["chdir"] else None
-            res[idx] = run_transfer(root, c["pre"], [C.VH, "execdump"] + c["args"], chdir, c["become"], c["vh_exit"], ["-e", "VP_FROM_E=e v", "-e", "HOME=/custom/home"],
+            res[idx] = run_transfer(root, c["pre"], [C.VH, "execdump"] + c["args"], chdir, c["become"], c["vh_exit"], ["-e", "VP_FROM_E=e v=w=x", "-e", "HOME=/custom/home"],
                                     ignore=c.get("ignore", False))
             res[idx]["root"] = root
     ths = [threading.Thread(target=work, args=(i,)) for i in range(len(parts))]
@@ -160,10 +160,10 @@ def c14(run, replay=None):
         want_cwd = os.path.realpath(os.path.join(o["root"], c["chdir"])) if c["chdir"] else os.path.realpath(o["root"])
         if os.path.realpath(d["cwd"]) != want_cwd:
             problems.append("cwd %r != %r" % (d["cwd"], want_cwd))
-        if d["env"].get("VP_FROM_E") != "e v".encode().hex():
+        if d["env"].get("VP_FROM_E") != "e v=w=x".encode().hex():
             problems.append("-e variable missing in the environment: %r" % d["env"])
         # the whole environment: what rash was started with, plus the -e pairs (which win), nothing else touched
-        want_env = dict(o["env_given"], VP_FROM_E="e v", HOME="/custom/home")
+        want_env = dict(o["env_given"], VP_FROM_E="e v=w=x", HOME="/custom/home")
         got_env = {k: bytes.fromhex(v).decode("utf-8", "replace") for k, v in d["env"].items()}
         diff = {k: (want_env.get(k), got_env.get(k)) for k in set(want_env) | set(got_env) if want_env.get(k) != got_env.get(k)}
         if diff:
@@ -395,6 +395,17 @@ def c15(run, replay=None):
     elif o["rc"] != 0:
         run.violation("become with a non-finite number in the store: rc %r stdout %r" % (o["rc"], o["stdout"]), dict(script=sc, observed=o))
     # a large variable store crossing the process boundary (K31: about 1 MB used to deadlock): under a deadline
+    # K51: a mapping with a non-string key in the store: JSON object keys are strings, the key arrives as "1"
+    sc = ("#!/usr/bin/env rash\n- set_vars:\n    m: \"{{ {1: 'a'} }}\"\n- debug:\n    msg: \"before {{ m[1] | default('UNDEF') }}\"\n- command: \"true\"\n  become: true\n  become_user: nobody\n"
+          "- debug:\n    msg: \"after {{ m[1] | default('UNDEF') }}\"\n")
+    o = E.run_impls([dict(files={"main.rh": dict(raw=sc)}, world_writable=True)], timeout=15)[0]
+    if "before a" in o["stdout"] and "after a" not in o["stdout"]:
+        if "after UNDEF" in o["stdout"]:
+            run.known("K51-non-string-keys-stringified-under-become", "")
+        else:
+            run.violation("become changes a variable it does not touch (mapping with a numeric key): %r" % o["stdout"], dict(script=sc, observed=o))
+    elif o["rc"] != 0 or "before a" not in o["stdout"]:
+        run.violation("become with a numeric-key mapping in the store: rc %r stdout %r" % (o["rc"], o["stdout"]), dict(script=sc, observed=o))
     big = ("#!/usr/bin/env rash\n- set_vars:\n    big: \"{{ 'x' * 2000000 }}\"\n- command: id -u\n  become: true\n  become_user: nobody\n  register: r\n"
            "- debug:\n    msg: \"<<big>> {{ big | length }} {{ r.output }}\"\n")
     o = E.run_impls([dict(files={"main.rh": dict(raw=big)}, world_writable=True)], timeout=30)[0]
@@ -430,6 +441,18 @@ def c15(run, replay=None):
             if o["rc"] != 0 or o["stdout"] != want:
                 run.violation("rash %s with task become=%s become_user=%s: the model of the parameter resolution says uid/gid %r, got stdout %r (rc %r)" %
                               (" ".join(gargs), tb, tu, mc, o["stdout"], o["rc"]), dict(script=sc, rash_args=gargs, observed=o))
+    # become on an INCLUDE task: the tasks of the included file run as that user (uid and gid), what they write reaches the
+    # tasks after the include, which run with the main process's own credentials again
+    incb = "#!/usr/bin/env rash\n- command: id -u\n- command: id -g\n- set_vars:\n    fromInc: \"h\u00e9llo\"\n"
+    for bu, uid, gid in become_users():
+        mainb = ("#!/usr/bin/env rash\n- include: ROOT/incb.rh\n  become: true\n  become_user: %s\n- command: id -u\n- debug:\n    msg: \"seen {{ fromInc | default('LOST') }}\"\n" % json.dumps(bu))
+        o = E.run_impls([dict(files={"main.rh": dict(raw=mainb), "incb.rh": dict(raw=incb)}, world_writable=True)], timeout=15)[0]
+        lines = [l for l in o["stdout"].split("\n") if l]
+        if o["rc"] != 0 or lines[:3] != [str(uid), str(gid), str(os.getuid())]:
+            run.violation("include with become_user %s: expected uid/gid %d/%d inside the included file and %d afterwards, got %r (rc %r)" % (bu, uid, gid, os.getuid(), lines, o["rc"]),
+                          dict(main=mainb, included=incb, observed=o))
+        elif not any(l.startswith("seen ") for l in lines):
+            run.violation("include with become: the run did not reach the task after the include: %r" % lines, dict(main=mainb, included=incb, observed=o))
     # K17: a failing become task inside an include that has ignore_errors
     inc = "#!/usr/bin/env rash\n- command: \"false\"\n  become: true\n  become_user: nobody\n- command: \"echo incafter >> ROOT/log\"\n"
     main = "#!/usr/bin/env rash\n- include: ROOT/inc.rh\n  ignore_errors: true\n- command: \"id -u >> ROOT/log\"\n"
